@@ -8,6 +8,7 @@ RULE = ('kernel-level exchange cases (as C02) plus pipeline-level scenes: random
         'or arbitrary non-negative multi-direction tables, 1-3 bands, attenuation, orders 0-3, long and '
         'truncating histograms; each stage recomputed by the Lean model from the inputs the object holds; '
         'non-trivial = order>=1 with non-zero result; distinct = different scene parameters')
+RULE = RULE + '; direction sets with non-unit radii, incoming directions on their own sampling (other count and positions), band-specific fully absorbing / rigid walls'
 ASSUMPTIONS = ['theorems at real numbers, code at float64 (exchange kernel compared bit for bit)',
                'stage-wise runs take form factors, visibility and the point-to-patch factor from the object; the end-to-end runs recompute everything in the Lean pipeline model from the bare scene description (walls, patch size, tables, attenuation, source, receiver, run parameters)']
 EXPLANATION = 'etc = coefficients of the polynomial recursion (spec), for every slot; order K = order K-1 + a non-negative term; diffuse walls make slots irrelevant.'
